@@ -272,6 +272,20 @@ structure ShiftOut (a r : Dc) (V : ℚ) (K k : Int) : Prop where
   lo : dval a * (2 : ℚ) ^ k / 4 ≤ dval r
   hi : dval r ≤ dval a * (2 : ℚ) ^ k
   tr : a.trunc = true → r.trunc = true
+  lo1 : -60 ≤ k → k ≤ 60 → dval a * (2 : ℚ) ^ k / 2 ≤ dval r
+
+theorem shiftOut_of (a r : Dc) (V : ℚ) (K k : Int) (f : ℚ) (hf : (2 : ℚ) ^ k = f)
+    (c1 : Follows r (V * f) (K + k)) (c2 : WF r) (c3 : r.d ≠ []) (c4 : Trimmed r) (c5 : r.neg = a.neg)
+    (c6 : dval a * f / 4 ≤ dval r) (c7 : dval r ≤ dval a * f) (c8 : a.trunc = true → r.trunc = true)
+    (c9 : -60 ≤ k → k ≤ 60 → dval a * f / 2 ≤ dval r) :
+    ShiftOut a r V K k := by
+  subst hf
+  exact ⟨c1, c2, c3, c4, c5, c6, c7, c8, c9⟩
+
+theorem step_tr {a a' : Dc} {f : ℚ} (s : StepRes a a' f) (ht : a.trunc = true) : a'.trunc = true := by
+  by_cases e : dval a' = dval a * f
+  · rw [s.exact e]; exact ht
+  · exact s.inexact e
 
 /-- **`a.Shift(k)` along the true value**, |k| ≤ 120 (every call in `floatBits` on inputs in range) -/
 theorem shift_follows (a : Dc) (k : Int) (hk : k ≠ 0) (hk1 : -120 ≤ k) (hk2 : k ≤ 120) (hwf : WF a) (hne : a.d ≠ [])
@@ -292,7 +306,7 @@ theorem shift_follows (a : Dc) (k : Int) (hk : k ≠ 0) (hk1 : -120 ≤ k) (hk2 
   · rw [if_pos hposk]
     obtain ⟨n, hn⟩ : ∃ n : Nat, k = (n : Int) := ⟨k.toNat, by omega⟩
     subst hn
-    simp only [Int.toNat_natCast, zpow_natCast]
+    simp only [Int.toNat_natCast]
     have hxa : 0 ≤ K ∨ 1 / (2 : ℚ) ^ 1064 ≤ dval a := by
       rcases hmag with h0 | hx
       · exact Or.inl h0.1
@@ -318,7 +332,8 @@ theorem shift_follows (a : Dc) (k : Int) (hk : k ≠ 0) (hk1 : -120 ≤ k) (hk2 
       have hl2 := step_lower _ _ _ s2
       have epow : (2 : ℚ) ^ n = (2 : ℚ) ^ 60 * (2 : ℚ) ^ (n - 60) := by rw [← pow_add]; congr 1; omega
       have hp2 : (0 : ℚ) < (2 : ℚ) ^ (n - 60) := by positivity
-      refine ⟨?_, s2.wf, s2.ne, s2.trimmed, by rw [s2.neg, s1.neg], ?_, ?_, ?_⟩
+      refine shiftOut_of a _ V K n ((2 : ℚ) ^ n) (zpow_natCast _ _) ?_ s2.wf s2.ne s2.trimmed (by rw [s2.neg, s1.neg]) ?_ ?_
+        (fun ht => step_tr s2 (step_tr s1 ht)) (fun _ h60 => by exfalso; omega)
       · have e : V * (2 : ℚ) ^ 60 * (2 : ℚ) ^ (n - 60) = V * (2 : ℚ) ^ n := by rw [epow]; ring
         have eK : K + ((60 : Nat) : Int) + ((n - 60 : Nat) : Int) = K + (n : Int) := by omega
         rw [e, eK] at f2; exact f2
@@ -329,13 +344,6 @@ theorem shift_follows (a : Dc) (k : Int) (hk : k ≠ 0) (hk1 : -120 ≤ k) (hk2 
         have := mul_le_mul_of_nonneg_right s1.le hp2.le
         have := s2.le
         linarith
-      · intro ht
-        by_cases e2 : dval (leftShift (leftShift a 60) (n - 60)) = dval (leftShift a 60) * (2 : ℚ) ^ (n - 60)
-        · rw [s2.exact e2]
-          by_cases e1' : dval (leftShift a 60) = dval a * (2 : ℚ) ^ 60
-          · rw [s1.exact e1']; exact ht
-          · exact s1.inexact e1'
-        · exact s2.inexact e2
     · have e1 : shiftLeftBy (98 + 2) a n = leftShift a n := by
         conv => lhs; unfold shiftLeftBy
         rw [if_neg hbig]
@@ -343,17 +351,13 @@ theorem shift_follows (a : Dc) (k : Int) (hk : k ≠ 0) (hk1 : -120 ≤ k) (hk2 
       obtain ⟨f1, s1⟩ := one_left a n (by omega) (by omega) hwf hne V K h (by omega) hxa
       have hl1 := step_lower a _ _ s1
       have hpp : (0 : ℚ) ≤ dval a * (2 : ℚ) ^ n := by positivity
-      refine ⟨f1, s1.wf, s1.ne, s1.trimmed, s1.neg, by linarith, s1.le, ?_⟩
-      intro ht
-      by_cases e1' : dval (leftShift a n) = dval a * (2 : ℚ) ^ n
-      · rw [s1.exact e1']; exact ht
-      · exact s1.inexact e1'
+      exact shiftOut_of a _ V K n ((2 : ℚ) ^ n) (zpow_natCast _ _) f1 s1.wf s1.ne s1.trimmed s1.neg (by linarith) s1.le
+        (fun ht => step_tr s1 ht) (fun _ _ => hl1)
   · have hneg : k < 0 := by omega
     rw [if_neg hposk, if_pos hneg]
     obtain ⟨n, hn⟩ : ∃ n : Nat, k = -(n : Int) := ⟨(-k).toNat, by omega⟩
     subst hn
     simp only [neg_neg, Int.toNat_natCast]
-    rw [two_zpow_nat]
     show ShiftOut a (shiftRightBy (98 + 2) a n) V K (-(n : Int))
     have hfin : 0 ≤ K - (n : Int) ∨ 1 / (2 : ℚ) ^ 1064 ≤ dval a * (1 / (2 : ℚ) ^ n) / 4 := by
       rcases hmag with h0 | hx
@@ -362,22 +366,127 @@ theorem shift_follows (a : Dc) (k : Int) (hk : k ≠ 0) (hk1 : -120 ≤ k) (hk2 
         have := hx.2
         rw [two_zpow_nat] at this
         rw [q62]; linarith
-    have hstruct : ∀ r : Dc, Follows r (V * (1 / (2 : ℚ) ^ n)) (K - (n : Int)) → WF r → r.d ≠ [] → Trimmed r → r.neg = a.neg →
-        dval a * (1 / (2 : ℚ) ^ n) / 4 ≤ dval r → dval r ≤ dval a * (1 / (2 : ℚ) ^ n) → (a.trunc = true → r.trunc = true) →
-        ShiftOut a r V K (-(n : Int)) := by
-      intro r c1 c2 c3 c4 c5 c6 c7 c8
-      refine ⟨?_, c2, c3, c4, c5, ?_, ?_, c8⟩
-      · rw [two_zpow_nat]; have : K + -(n : Int) = K - n := by ring
-        rw [this]; exact c1
-      · rw [two_zpow_nat]; exact c6
-      · rw [two_zpow_nat]; exact c7
-    apply hstruct
-    all_goals try clear hstruct
+    have hKn : K + -(n : Int) = K - n := by ring
+    have hpn : (0 : ℚ) < (2 : ℚ) ^ n := by positivity
     by_cases hbig : n > maxShift
     · have e1 : shiftRightBy (98 + 2) a n = rightShift (rightShift a maxShift) (n - maxShift) := by
         conv => lhs; unfold shiftRightBy
         rw [if_pos hbig]
         unfold shiftRightBy
         rw [if_neg (by omega)]
-      sorry
-    · sorry
+      rw [e1, hm]
+      have epow : (2 : ℚ) ^ n = (2 : ℚ) ^ 60 * (2 : ℚ) ^ (n - 60) := by rw [← pow_add]; congr 1; omega
+      have ediv : (1 : ℚ) / (2 : ℚ) ^ n = 1 / (2 : ℚ) ^ 60 * (1 / (2 : ℚ) ^ (n - 60)) := by
+        rw [epow]; field_simp
+      have hp2 : (0 : ℚ) < 1 / (2 : ℚ) ^ (n - 60) := by positivity
+      have hle2 : 1 / (2 : ℚ) ^ (n - 60) ≤ 1 := by
+        rw [div_le_one (by positivity)]; exact one_le_pow₀ (by norm_num)
+      have hx0 : 0 ≤ K - (60 : Nat) ∨ 1 / (2 : ℚ) ^ 1064 ≤ dval a * (1 / (2 : ℚ) ^ 60) := by
+        rcases hfin with h0 | hx
+        · exact Or.inl (by omega)
+        · right
+          rw [ediv] at hx
+          have hq : (0 : ℚ) ≤ dval a * (1 / (2 : ℚ) ^ 60) := by positivity
+          have : dval a * (1 / (2 : ℚ) ^ 60 * (1 / (2 : ℚ) ^ (n - 60))) ≤ dval a * (1 / (2 : ℚ) ^ 60) := by
+            rw [← mul_assoc]; exact mul_le_of_le_one_right hq hle2
+          linarith
+      obtain ⟨f1, s1⟩ := one_right a 60 (by decide) (by decide) hwf hne V K h (by omega) hx0
+      have hf60 : 1 / (2 : ℚ) ^ 60 ≤ (10 : ℚ) ^ (19 : Int) := by norm_num
+      have hd1 := step_dp a _ _ hwf hne s1 hf60
+      have hl1 := step_lower a _ _ s1
+      have hx1 : 0 ≤ K - (60 : Nat) - ((n - 60 : Nat) : Int) ∨
+          1 / (2 : ℚ) ^ 1064 ≤ dval (rightShift a 60) * (1 / (2 : ℚ) ^ (n - 60)) := by
+        rcases hfin with h0 | hx
+        · exact Or.inl (by omega)
+        · right
+          rw [ediv] at hx
+          have := mul_le_mul_of_nonneg_right hl1 hp2.le
+          have e : dval a * (1 / (2 : ℚ) ^ 60 * (1 / (2 : ℚ) ^ (n - 60))) / 4
+              = dval a * (1 / (2 : ℚ) ^ 60) / 2 * (1 / (2 : ℚ) ^ (n - 60)) / 2 := by ring
+          have hq : (0 : ℚ) ≤ dval a * (1 / (2 : ℚ) ^ 60) / 2 * (1 / (2 : ℚ) ^ (n - 60)) := by positivity
+          linarith
+      obtain ⟨f2, s2⟩ := one_right (rightShift a 60) (n - 60) (by omega) (by omega) s1.wf s1.ne _ _ f1 (by omega) hx1
+      have hl2 := step_lower _ _ _ s2
+      refine shiftOut_of a _ V K (-(n : Int)) (1 / (2 : ℚ) ^ n) (two_zpow_nat n) ?_ s2.wf s2.ne s2.trimmed (by rw [s2.neg, s1.neg]) ?_ ?_
+        (fun ht => step_tr s2 (step_tr s1 ht)) (fun h60 _ => by exfalso; omega)
+      · have e : V * (1 / (2 : ℚ) ^ 60) * (1 / (2 : ℚ) ^ (n - 60)) = V * (1 / (2 : ℚ) ^ n) := by rw [ediv]; ring
+        have eK : K - ((60 : Nat) : Int) - ((n - 60 : Nat) : Int) = K + -(n : Int) := by omega
+        rw [e, eK] at f2; exact f2
+      · rw [ediv]
+        have := mul_le_mul_of_nonneg_right hl1 hp2.le
+        have e : dval a * (1 / (2 : ℚ) ^ 60 * (1 / (2 : ℚ) ^ (n - 60))) / 4
+            = dval a * (1 / (2 : ℚ) ^ 60) / 2 * (1 / (2 : ℚ) ^ (n - 60)) / 2 := by ring
+        linarith
+      · rw [ediv]
+        have := mul_le_mul_of_nonneg_right s1.le hp2.le
+        have := s2.le
+        have e : dval a * (1 / (2 : ℚ) ^ 60 * (1 / (2 : ℚ) ^ (n - 60)))
+            = dval a * (1 / (2 : ℚ) ^ 60) * (1 / (2 : ℚ) ^ (n - 60)) := by ring
+        linarith
+    · have e1 : shiftRightBy (98 + 2) a n = rightShift a n := by
+        conv => lhs; unfold shiftRightBy
+        rw [if_neg hbig]
+      rw [e1]
+      have hx0 : 0 ≤ K - (n : Int) ∨ 1 / (2 : ℚ) ^ 1064 ≤ dval a * (1 / (2 : ℚ) ^ n) := by
+        rcases hfin with h0 | hx
+        · exact Or.inl h0
+        · right
+          have hq : (0 : ℚ) ≤ dval a * (1 / (2 : ℚ) ^ n) := by positivity
+          linarith
+      obtain ⟨f1, s1⟩ := one_right a n (by omega) (by omega) hwf hne V K h (by omega) hx0
+      have hl1 := step_lower a _ _ s1
+      have hpp : (0 : ℚ) ≤ dval a * (1 / (2 : ℚ) ^ n) := by positivity
+      refine shiftOut_of a _ V K (-(n : Int)) (1 / (2 : ℚ) ^ n) (two_zpow_nat n) ?_ s1.wf s1.ne s1.trimmed s1.neg (by linarith) s1.le
+        (fun ht => step_tr s1 ht) (fun _ _ => hl1)
+      rw [hKn]; exact f1
+
+end C03
+
+namespace C03
+open Num Spec.NumText F64
+
+/-- a decimal that is the floor of `V` on its own 800-digit grid follows `V` (frame 0): what
+`decimal.set` produces when the text has more than 800 significant digits -/
+theorem follows_of_floor (d : Dc) (hwf : WF d) (hne : d.d ≠ []) (V : ℚ) (hle : dval d ≤ V)
+    (hlt : V < dval d + (10 : ℚ) ^ (d.dp - 800)) (hex : d.trunc = false → dval d = V)
+    (hst : d.trunc = true → dval d < V) (hdp : d.dp ≤ 800) : Follows d V 0 := by
+  refine ⟨hle, hex, hst, ?_⟩
+  intro z hb hzV
+  apply Classical.byContradiction
+  intro hn
+  have hlt2 : dval d < z := by linarith
+  obtain ⟨j, hj⟩ := bnd_grid d hwf hne 0 z hb hlt2 hdp (Or.inl (le_refl _))
+  obtain ⟨i, hi⟩ := dval_grid d hwf
+  have hu : (0 : ℚ) < (10 : ℚ) ^ (d.dp - 800) := zpow_pos (by norm_num) _
+  generalize (10 : ℚ) ^ (d.dp - 800) = u at *
+  rw [hi] at hlt hlt2
+  rw [hj] at hzV hlt2
+  have h1 : (j : ℚ) * u < ((i : ℚ) + 1) * u := by linarith
+  have h2 : (j : ℚ) < (i : ℚ) + 1 := lt_of_mul_lt_mul_right h1 hu.le
+  have h4 : (i : ℚ) < (j : ℚ) := lt_of_mul_lt_mul_right hlt2 hu.le
+  have h5 : j < i + 1 := by exact_mod_cast h2
+  have h6 : i < j := by exact_mod_cast h4
+  omega
+
+/-- … and such a `V` is still below 10^dp -/
+theorem floor_hi (d : Dc) (hwf : WF d) (hne : d.d ≠ []) (V : ℚ) (hlt : V < dval d + (10 : ℚ) ^ (d.dp - 800)) :
+    V < (10 : ℚ) ^ d.dp := by
+  obtain ⟨i, hi⟩ := dval_grid d hwf
+  obtain ⟨_, hhi, _⟩ := dval_bounds d hwf hne
+  have hu : (0 : ℚ) < (10 : ℚ) ^ (d.dp - 800) := zpow_pos (by norm_num) _
+  have e : (10 : ℚ) ^ d.dp = (10 : ℚ) ^ (800 : ℕ) * (10 : ℚ) ^ (d.dp - 800) := by
+    rw [← zpow_natCast, ← zpow_add₀ (by norm_num : (10 : ℚ) ≠ 0)]; congr 1; push_cast; ring
+  rw [e] at hhi ⊢
+  generalize (10 : ℚ) ^ (d.dp - 800) = u at *
+  rw [hi] at hhi hlt
+  have h1 : (i : ℚ) < (10 : ℚ) ^ (800 : ℕ) := lt_of_mul_lt_mul_right hhi hu.le
+  have h2 : (i : ℚ) < ((10 ^ 800 : ℕ) : ℚ) := by push_cast; exact h1
+  have h3 : i < ((10 ^ 800 : ℕ) : ℤ) := by exact_mod_cast h2
+  have h4 : (i : ℚ) + 1 ≤ (10 : ℚ) ^ (800 : ℕ) := by
+    have : i + 1 ≤ ((10 ^ 800 : ℕ) : ℤ) := by omega
+    have : ((i + 1 : ℤ) : ℚ) ≤ (((10 ^ 800 : ℕ) : ℤ) : ℚ) := by exact_mod_cast this
+    push_cast at this; exact this
+  have h5 : ((i : ℚ) + 1) * u ≤ (10 : ℚ) ^ (800 : ℕ) * u := mul_le_mul_of_nonneg_right h4 hu.le
+  linarith
+
+end C03
